@@ -3,6 +3,8 @@
 regenerates lean/MdkVerif/Generated.lean.  Fails loudly (exit 2, message `tie:gen:<fact>`)
 when a fact it needs is not found; never defaults silently."""
 import os, re, sys, json
+sys.path.insert(0, os.path.dirname(os.path.abspath(__file__)))
+import rsnorm
 
 REPO = os.environ.get("VERIF_REPO", "/repo")
 OUT = os.path.join(os.path.dirname(os.path.abspath(__file__)), "..", "lean", "MdkVerif", "Generated.lean")
@@ -10,14 +12,23 @@ OUT = os.path.join(os.path.dirname(os.path.abspath(__file__)), "..", "lean", "Md
 class Missing(Exception):
     pass
 
+class Src(str):
+    """the text of a library source file that remembers which file it is (so that `strip_comments` can bring it
+    into the normal form of tools/rsnorm.py with the constants and helper functions of its file and crate)"""
+    rel = None
+
+def _src(text, rel):
+    s = Src(text); s.rel = rel
+    return s
+
 def read(rel):
     p = os.path.join(REPO, rel)
     try:
-        return open(p, encoding="utf-8").read()
+        return _src(open(p, encoding="utf-8").read(), rel)
     except OSError:
         raise Missing(f"file:{rel}")
 
-def strip_comments(src):
+def strip_comments_raw(src):
     # remove // line comments and /* */ block comments, keep string literals intact
     out, i, n = [], 0, len(src)
     while i < n:
@@ -37,21 +48,98 @@ def strip_comments(src):
             out.append(c); i += 1
     return "".join(out)
 
+def strip_comments(src):
+    """comments removed; for a file of one of the library's crates also CONSTANTS INLINED (rsnorm.inline_consts: string /
+    byte-string / integer const and static items of the file, then of its crate, substituted at their use sites)"""
+    text = strip_comments_raw(src)
+    rel = getattr(src, "rel", None)
+    if rel and rel.startswith("crates/") and "/src/" in rel:
+        lit, ints = crate_index(rel).consts_for(rel, text)
+        return _src(rsnorm.inline_consts(text, lit, ints), rel)
+    return text
+
 def non_test(src):
     """drop the trailing `#[cfg(test)] mod tests { … }`"""
     m = re.search(r"#\[cfg\(test\)\]\s*mod\s+tests", src)
-    return src[:m.start()] if m else src
+    return _src(src[:m.start()], getattr(src, "rel", None)) if m else src
+
+class CrateIndex:
+    """constants and functions of one crate of the library (non-test code, comments stripped)"""
+    def __init__(self, crate_dir):
+        self.files = {}
+        root = os.path.join(REPO, crate_dir, "src")
+        for d, _, fs in sorted(os.walk(root)):
+            for f in sorted(fs):
+                p = os.path.join(d, f)
+                rel = os.path.relpath(p, REPO)
+                if not f.endswith(".rs") or re.search(r"(^|/)(tests?|test_util|benches)(/|\.rs$)", os.path.relpath(p, root)):
+                    continue
+                try:
+                    self.files[rel] = rsnorm.drop_tests(strip_comments_raw(open(p, encoding="utf-8").read()))
+                except OSError:
+                    pass
+        self.consts = {}
+        for rel, text in self.files.items():
+            for k, v in rsnorm.const_defs(text).items():
+                self.consts.setdefault(k, []).append(v)
+        self._fns = None
+        self._inlined = {}
+    def consts_for(self, rel, text):
+        return rsnorm.resolve_consts(rsnorm.const_defs(text), self.consts)
+    def fns(self):
+        """{name: [fn item of the const-inlined text of its file]}"""
+        if self._fns is None:
+            self._fns = {}
+            for rel, text in self.files.items():
+                lit, ints = self.consts_for(rel, text)
+                for f in rsnorm.fn_items(rsnorm.inline_consts(text, lit, ints)):
+                    self._fns.setdefault(f["name"], []).append(f)
+        return self._fns
+
+_CRATES = {}
+def crate_index(rel):
+    crate_dir = "/".join(rel.split("/")[:2])
+    if crate_dir not in _CRATES:
+        _CRATES[crate_dir] = CrateIndex(crate_dir)
+    return _CRATES[crate_dir]
+
+_BOUNDARY = None
+def boundary():
+    """the function names the extractors know: every identifier that occurs in a string literal of this file, of
+    lockshape.py or of gen_leak.py (names handed to fn_body, names in patterns).  A callee with such a name is a step of
+    the model and is read on its own; any other callee is an implementation detail and is looked through (inlined)."""
+    global _BOUNDARY
+    if _BOUNDARY is None:
+        words = set()
+        here = os.path.dirname(os.path.abspath(__file__))
+        for f in ("gen_model.py", "lockshape.py"):
+            try:
+                text = open(os.path.join(here, f), encoding="utf-8").read()
+            except OSError:
+                continue
+            for lit in re.findall(r'"(?:[^"\\\n]|\\.)*"', text):
+                words.update(re.findall(r"[a-z_][a-z0-9_]*", lit))
+        _BOUNDARY = words
+    return _BOUNDARY
+
+_FN_CACHE = {}
+def _fn_items(src):
+    key = (len(src), hash(src))
+    if key not in _FN_CACHE:
+        _FN_CACHE[key] = rsnorm.fn_items(src)
+    return _FN_CACHE[key]
 
 def const_usize(src, name, fact):
     m = re.search(r"\bconst\s+" + re.escape(name) + r"\s*:\s*\w+\s*=\s*([^;]+);", src)
     if not m:
         raise Missing(fact)
     expr = m.group(1).strip().replace("_", "")
+    expr = re.sub(r"(?<=[0-9])(usize|u64|u32|u16|u8|i64|i32)\b", "", expr)
     if not re.fullmatch(r"[0-9\s\*\+\(\)]+", expr):
         raise Missing(fact + ":expr")
     return int(eval(expr))
 
-def fn_body(src, name, fact):
+def fn_body_raw(src, name, fact):
     m = re.search(r"\bfn\s+" + re.escape(name) + r"\b", src)
     if not m:
         raise Missing(fact)
@@ -72,6 +160,72 @@ def fn_body(src, name, fact):
                     return src[i:j + 1]
         j += 1
     raise Missing(fact + ":braces")
+
+def helper_lookup(src):
+    """resolver for rsnorm.inline_helpers: a callee defined exactly once in this text, else exactly once in the crate"""
+    local = {}
+    for f in _fn_items(src):
+        local.setdefault(f["name"], []).append(f)
+    rel = getattr(src, "rel", None)
+    crate = crate_index(rel).fns() if rel and rel.startswith("crates/") and "/src/" in rel else {}
+    def lookup(name, prefix):
+        cands = local.get(name) or crate.get(name) or []
+        if len(cands) != 1:
+            return None
+        f = cands[0]
+        if prefix == "self." and not f["has_self"]:
+            return None
+        if prefix != "self." and not prefix.startswith("Self::") and f["has_self"]:
+            return None
+        return f
+    return lookup
+
+def fn_body(src, name, fact):
+    """the body of `fn name` with HELPERS INLINED (rsnorm.inline_helpers: the body of every callee the extractors do not
+    know by name is inserted after its call, parameters replaced by the arguments, depth <= 3) and format strings in
+    positional form"""
+    body = fn_body_raw(src, name, fact)
+    return rsnorm.positional_fmt(rsnorm.inline_helpers(body, helper_lookup(src), boundary(), stack=(name,)))
+
+def squash(text):
+    """whitespace collapsed; none around the `.` of a method chain, inside parentheses, before `,` `;` `?`"""
+    t = re.sub(r"\s+", " ", text)
+    t = re.sub(r" ?\.(?=[A-Za-z_])(?<!\.\.)", ".", t)
+    t = re.sub(r"([(\[]) ", r"\1", t)
+    t = re.sub(r" ([)\],;?])", r"\1", t)
+    t = re.sub(r",([)\]])", r"\1", t)          # trailing comma of an argument list
+    return t
+
+def flat(body):
+    """LOCALS INLINED (rsnorm.inline_lets) and whitespace squashed: patterns over this text talk about expressions,
+    not about the names of locals"""
+    return squash(rsnorm.inline_lets(rsnorm.unify_strings(body)))
+
+def fn_params(src, name, fact):
+    """[(name, type)] of the parameters (without self) of the first `fn name`"""
+    for f in _fn_items(src):
+        if f["name"] == name:
+            return f["params"]
+    raise Missing(fact + ":params")
+
+def param_of_type(src, name, type_re, fact):
+    ps = [p for p, t in fn_params(src, name, fact) if p and re.fullmatch(type_re, t)]
+    if len(ps) != 1:
+        raise Missing(fact + ":param:" + type_re)
+    return ps[0]
+
+def calls(body, callee_re):
+    """[(position, [argument texts])] of the calls `<callee_re>(…)` in body"""
+    res = []
+    for m in re.finditer(r"(?<![\w])(?:" + callee_re + r")\s*\(", body):
+        cl = rsnorm.match_close(body, m.end() - 1, "(", ")")
+        if cl > 0:
+            res.append((m.start(), [re.sub(r"\s+", " ", a) for a in rsnorm.split_top(body[m.end():cl])]))
+    return res
+
+def arms_of(body):
+    """the body with `matches!` turned into `match` and OR-PATTERNS EXPANDED into one arm per alternative"""
+    return rsnorm.expand_matches(body)
 
 def strings(body):
     res = []
@@ -113,13 +267,20 @@ def wrap_facts(facts, nat, boolean, strlist):
     dec = strip_comments(non_test(read("crates/mdk-core/src/messages/decryption.rs")))
     recent = fn_body(dec, "try_decrypt_with_recent_epochs", "fn:try_decrypt_with_recent_epochs")
     past = fn_body(dec, "try_decrypt_with_past_epochs", "fn:try_decrypt_with_past_epochs")
+    # the past-epoch window, over EXPRESSIONS (locals inlined): with cur = <group>.epoch().as_u64() and LB the u64 parameter,
+    #   refuse when cur == 0 || LB == 0;  newest = cur ⊖ 1;  oldest = newest ⊖ (LB ⊖ 1);  for e in (oldest..=newest).rev()
+    lb = re.escape(param_of_type(dec, "try_decrypt_with_past_epochs", r"u64", "fn:try_decrypt_with_past_epochs"))
+    pflat = flat(past)
+    cur = r"\w+\.epoch\(\)\.as_u64\(\)"
+    newest = cur + r"\.saturating_sub\(1\)"
+    oldest = newest + r"\.saturating_sub\(" + lb + r"\.saturating_sub\(1\)\)"
+    past_call = calls(recent, r"(?:self\s*\.\s*)?try_decrypt_with_past_epochs")
+    lookback_arg = past_call[0][1][-1].replace("_", "") if past_call and past_call[0][1] else ""
     boolean("lookbackAsModelled",
             0 < recent.find("self.exporter_secret(") < recent.find("decrypt_with_exporter_secret(") < recent.find("try_decrypt_with_past_epochs(")
-            and "DEFAULT_EPOCH_LOOKBACK" in recent
-            and bool(re.search(r"current_epoch\s*==\s*0\s*\|\|\s*max_epoch_lookback\s*==\s*0", past))
-            and bool(re.search(r"start_epoch\s*:\s*u64\s*=\s*current_epoch\.saturating_sub\(1\)", past))
-            and bool(re.search(r"end_epoch\s*:\s*u64\s*=\s*start_epoch\.saturating_sub\(\s*max_epoch_lookback\.saturating_sub\(1\)\s*\)", past))
-            and bool(re.search(r"\(end_epoch\s*\.\.=\s*start_epoch\)\.rev\(\)", past))
+            and (lookback_arg == "DEFAULT_EPOCH_LOOKBACK" or (lookback_arg.isdigit() and int(lookback_arg) == int(facts["epochLookback"][1])))
+            and bool(re.search(r"if (?:" + cur + r" == 0 \|\| " + lb + r" == 0|" + lb + r" == 0 \|\| " + cur + r" == 0) \{ return Err", pflat))
+            and bool(re.search(r"for \w+ in \(" + oldest + r" ?\.\.= ?" + newest + r"\)\.rev\(\)", pflat))
             and "get_group_exporter_secret" in past,
             "decryption.rs: current exporter secret (exported and stored on demand) first, then the STORED secrets of epochs cur-1 down to cur-LOOKBACK (not below 0)")
     dm = fn_body(dec, "decrypt_message", "fn:decrypt_message")
@@ -147,54 +308,89 @@ def wrap_facts(facts, nat, boolean, strlist):
     boolean("validateEventOrder", 0 < ve.find("Kind::MlsGroupMessage") < ve.find("validate_created_at"),
             "validation.rs validate_event: kind first, then the created_at window")
     vc = fn_body(val, "validate_created_at", "fn:validate_created_at")
+    # over EXPRESSIONS (locals inlined): EV = <event>.created_at.as_secs(), NOW = Timestamp::now().as_secs()
+    vflat = flat(vc)
+    ev = re.escape(param_of_type(val, "validate_created_at", r"&\s*(?:nostr::)?Event", "fn:validate_created_at")) + r"\.created_at\.as_secs\(\)"
+    now = r"Timestamp::now\(\)\.as_secs\(\)"
     boolean("createdAtWindowAsModelled",
-            bool(re.search(r"event\.created_at\.as_secs\(\)\s*>\s*now\s*\.as_secs\(\)\s*\.saturating_add\(\s*self\.config\.max_future_skew_secs\s*\)", vc))
-            and bool(re.search(r"min_timestamp\s*=\s*now\.as_secs\(\)\.saturating_sub\(\s*self\.config\.max_event_age_secs\s*\)", vc))
-            and bool(re.search(r"event\.created_at\.as_secs\(\)\s*<\s*min_timestamp", vc))
+            bool(re.search(r"if " + ev + r" > \(?" + now + r"\.saturating_add\(self\.config\.max_future_skew_secs\)\)? \{ return Err\(Error::InvalidTimestamp", vflat))
+            and bool(re.search(r"if " + ev + r" < \(?" + now + r"\.saturating_sub\(self\.config\.max_event_age_secs\)\)? \{ return Err\(Error::InvalidTimestamp", vflat))
             and vc.count("Error::InvalidTimestamp") == 2 and vc.count("Timestamp::now()") == 1,
             "validation.rs validate_created_at: refused iff created_at > now ⊕ skew (saturating) or created_at < now ⊖ max_age (saturating); one clock read")
     ex = fn_body(val, "extract_nostr_group_id", "fn:extract_nostr_group_id")
-    hl = re.search(r"group_id_hex\.len\(\)\s*!=\s*(\d+)", ex)
+    xflat = flat(ex)
+    def first(pat, text, start=0):
+        m = re.compile(pat).search(text, max(start, 0))
+        return m.start() if m else -1
+    # the steps by what they call / compare / return, not by the names of the locals
+    i_filter = first(r"filter\(\|(\w+)\| \1\.kind\(\) == TagKind::h\(\)\)", xflat)
+    i_none = first(r"\.is_empty\(\)|\.next\(\)|\.first\(\)", xflat, i_filter)
+    i_missing = xflat.find("MissingGroupIdTag")
+    i_several = first(r"\.len\(\) (?:> 1|>= 2)\b|\.count\(\) (?:> 0|>= 1|!= 0)\b|\.next\(\)\.is_some\(\)", xflat, i_missing)
+    i_multiple = xflat.find("MultipleGroupIdTags")
+    i_content = xflat.find(".content()")
+    i_decode = xflat.find("hex::decode(")
+    hl = re.search(r"\.len\(\) != (\d+)", xflat[max(i_content, 0):max(i_decode, 0)])
     if not hl:
         raise Missing("wrap:h-tag-length-check")
     nat("hTagHexLen", int(hl.group(1)), "validation.rs extract_nostr_group_id: required byte length of the h tag value")
     boolean("hTagShapeAsModelled",
-            bool(re.search(r"filter\(\s*\|tag\|\s*tag\.kind\(\)\s*==\s*TagKind::h\(\)\s*\)", ex))
-            and 0 < ex.find("h_tags.is_empty()") < ex.find("MissingGroupIdTag") < ex.find("h_tags.len() > 1") < ex.find("MultipleGroupIdTags")
-            < ex.find(".content()") < ex.find("group_id_hex.len()") < ex.find("hex::decode(group_id_hex)")
+            0 <= i_filter < i_none < i_missing < i_several < i_multiple < i_content < i_content + hl.start() < i_decode
             and ex.count("InvalidGroupIdFormat") == 4,
             "validation.rs extract_nostr_group_id: tags of kind h — none → MissingGroupIdTag, several → MultipleGroupIdTags, then value present, length, hex::decode → InvalidGroupIdFormat")
     proc = strip_comments(non_test(read("crates/mdk-core/src/messages/process.rs")))
     pm = fn_body(proc, "process_message", "fn:process_message")
-    marks = [pm.find("find_processed_message_by_event_id"), pm.find(".validate_event(event)"), pm.find("self.extract_nostr_group_id(event)"),
-             pm.find("self.decrypt_message(nostr_group_id, event)"), pm.find("self.dispatch_by_content_type(")]
+    def at(pat, text):
+        m = re.search(pat, text)
+        return m.start() if m else -1
+    marks = [pm.find("find_processed_message_by_event_id"), at(r"\.validate_event\s*\(", pm), at(r"\.extract_nostr_group_id\s*\(", pm),
+             at(r"\.decrypt_message\s*\(", pm), at(r"\.dispatch_by_content_type\s*\(", pm)]
     boolean("processStepOrder", all(x > 0 for x in marks) and marks == sorted(marks),
             "process.rs process_message: dedup lookup, validate_event, extract_nostr_group_id, decrypt_message, dispatch — in this order")
-    blocked = sorted(PM_STATES.index(s) for s in PM_STATES
-                     if re.search(r"let\s+\w+\s*=\s*processed\.state\s*==\s*message_types::ProcessedMessageState::" + s + r"\s*;", pm))
-    if not blocked or not re.search(r"if\s+is_failed\s*\|\|\s*is_epoch_invalidated", pm):
+    # step 0: for which states of the stored record is one of the two early results (Unprocessable / PreviouslyFailed) reached?
+    # Decided from the GUARDS on the way to them (if-conditions over `state == …::X`, booleans bound by `let`, match arms,
+    # or-patterns, matches!), whatever the locals are called and wherever the block lives (rsnorm.variants_reaching).
+    dedup = pm[:marks[1]] if marks[1] > 0 else pm
+    early = [m.start() for m in re.finditer(r"MessageProcessingResult\s*::\s*(?:Unprocessable|PreviouslyFailed)\b", dedup)]
+    reach = [rsnorm.variants_reaching(pm, pos, PM_STATES, "ProcessedMessageState") for pos in early]
+    if not early or any(r is None for r in reach) or any(set(r) != set(reach[0]) for r in reach):
+        raise Missing("wrap:dedup-blocked-states")
+    blocked = sorted(PM_STATES.index(st) for st in reach[0])
+    if not blocked:
         raise Missing("wrap:dedup-blocked-states")
     facts["dedupBlockedStates"] = ("List Nat", "[" + ", ".join(map(str, blocked)) + "]",
                                    "process.rs step 0: record states that block re-processing (0 created 1 processed 2 processed_commit 3 failed 4 epoch_invalidated 5 retryable)")
     boolean("dedupResultAsModelled",
-            0 < pm.find("extract_mls_group_id_from_event(event)") < pm.find("MessageProcessingResult::Unprocessable { mls_group_id }") < pm.find("MessageProcessingResult::PreviouslyFailed")
-            < pm.find(".validate_event(event)"),
+            0 < at(r"extract_mls_group_id_from_event\s*\(", pm) < at(r"MessageProcessingResult::Unprocessable\s*\{\s*mls_group_id\s*,?\s*\}", pm)
+            < pm.find("MessageProcessingResult::PreviouslyFailed") < marks[1],
             "process.rs step 0: a blocked event returns Unprocessable{group} when its h tag names a stored group, PreviouslyFailed otherwise")
+    # the two early failures: record_failure(<event>.id, &<error>, None, None) after validation,
+    # record_failure(<event>.id, &<error>, <group found by the h tag>.as_ref(), None) after decryption
+    rf_calls = [a for pos, a in calls(pm, r"(?:self\s*\.\s*)?record_failure") if pos < marks[4]]
+    def found_by_h_tag(arg):
+        m = re.fullmatch(r"&?\s*([a-z_]\w*)(?:\.as_ref\(\))?", arg)
+        return bool(m and re.search(r"\blet\s+" + m.group(1) + r"\s*(?::[^=;]+)?=[^;]*find_group_by_nostr_group_id[^;]*\.mls_group_id\b", pm))
     boolean("earlyFailuresRecorded",
-            len(re.findall(r"self\.record_failure\(\s*event\.id\s*,\s*&e\s*,\s*None\s*,\s*None\s*\)", pm)) == 1
-            and len(re.findall(r"self\.record_failure\(\s*event\.id\s*,\s*&e\s*,\s*mls_group_id\.as_ref\(\)\s*,\s*None\s*\)", pm)) == 1,
+            len(rf_calls) == 2 and all(len(a) == 4 and re.fullmatch(r"\w+\.id", a[0]) and re.fullmatch(r"&\s*\w+", a[1]) and a[3] == "None" for a in rf_calls)
+            and rf_calls[0][2] == "None" and found_by_h_tag(rf_calls[1][2]),
             "process.rs: a validation failure is recorded without group and epoch, a decryption failure with the group found by the h tag and without epoch")
     eh = strip_comments(non_test(read("crates/mdk-core/src/messages/error_handling.rs")))
     rf = fn_body(eh, "record_failure", "fn:record_failure")
+    rfl = flat(rf)
+    reason = re.search(r"\blet (\w+) = (?:Self::|self\.)?sanitize_error_reason\(", rfl)
     boolean("recordFailureKeepsContext",
-            bool(re.search(r"message_event_id\s*=\s*existing_record\.as_ref\(\)\.and_then\(\|r\|\s*r\.message_event_id\)", rf))
-            and bool(re.search(r"epoch\s*=\s*epoch\.or_else\(", rf)) and bool(re.search(r"\.or_else\(\|\|\s*existing_record\.and_then\(\|r\|\s*r\.mls_group_id\)\)", rf))
-            and "ProcessedMessageState::Failed" in rf and "Some(sanitized_reason.to_string())" in rf,
+            0 < rfl.find("find_processed_message_by_event_id(") < rfl.find("create_processed_message_record(")
+            and bool(re.search(r"\.and_then\(\|(\w+)\| \1\.message_event_id\)", rfl))
+            and bool(re.search(r"\.or_else\(\|\| [^;]*?\.and_then\(\|(\w+)\| \1\.epoch\)\)", rfl))
+            and bool(re.search(r"\.or_else\(\|\| [^;]*?\.and_then\(\|(\w+)\| \1\.mls_group_id\)\)", rfl))
+            and "ProcessedMessageState::Failed" in rf
+            and bool(re.search(r"Some\((?:Self::|self\.)?sanitize_error_reason\([^()]*\)\.to_string\(\)\)", rfl)
+                     or (reason and re.search(r"Some\(" + reason.group(1) + r"\.to_string\(\)\)", rfl))),
             "error_handling.rs record_failure: state Failed, sanitised reason; message id kept, epoch / group fall back to the existing record")
     fu = fn_body(eh, "fail_unprocessable", "fn:fail_unprocessable")
     boolean("failUnprocessableAsModelled", "Some(&group.mls_group_id)" in fu and "Some(group.epoch)" in fu and "MessageProcessingResult::Unprocessable" in fu,
             "error_handling.rs fail_unprocessable: record_failure with the group and the stored record's epoch, result Unprocessable")
-    sz = fn_body(eh, "sanitize_error_reason", "fn:sanitize_error_reason")
+    sz = arms_of(fn_body(eh, "sanitize_error_reason", "fn:sanitize_error_reason"))
     arms = re.findall(r"Error::(\w+)\s*(?:\{[^}]*\}|\([^)]*\))?\s*=>\s*\"([^\"]+)\"", sz)
     dflt = re.search(r"\b_\s*=>\s*\"([^\"]+)\"", sz)
     if not arms or not dflt:
@@ -513,9 +709,9 @@ def main():
             raise Missing("const:" + cname)
         ids = []
         for it in [x.strip() for x in mm.group(2).split(",") if x.strip()]:
-            mu = re.fullmatch(r"ExtensionType::Unknown\(\s*NOSTR_GROUP_DATA_EXTENSION_TYPE\s*\)", it)
+            mu = re.fullmatch(r"ExtensionType::Unknown\(\s*(NOSTR_GROUP_DATA_EXTENSION_TYPE|0x[0-9A-Fa-f_]+|\d[\d_]*)\s*\)", it)
             mk = re.fullmatch(r"ExtensionType::(\w+)", it)
-            if mu: ids.append(ngd)
+            if mu and (mu.group(1)[0].isalpha() or int(mu.group(1).replace("_", ""), 0) == ngd): ids.append(ngd)
             elif mk and mk.group(1) in EXT_IDS: ids.append(EXT_IDS[mk.group(1)])
             else: raise Missing(f"const:{cname}:item:{it}")
         if len(ids) != int(mm.group(1)):
